@@ -6,6 +6,7 @@ from vf.explore import cur
 from vf.effects import Patch
 from pony import orm
 from pony.orm import core
+from contracts import c34_tojson as TJ
 
 META = dict(
     level='other',
@@ -15,7 +16,7 @@ META = dict(
                 'entity is satisfied and excludes neither the reverse entity nor the reverse attribute"',
     trusted_base=['get_user_groups / get_user_roles / get_object_labels are stubs returning fixed sets; rule objects are attribute bags with real sets',
                   'the declarative rule of DESIGN 4-C34 as the meaning of "what the declared rules grant"'],
-    assumptions=['Database.to_json filtering is NOT covered', 'K rules per entity'],
+    assumptions=['Database.to_json filtering: one model with group / role / label rules, enumerated users, data shapes and include sets (c34_tojson)', 'K rules per entity'],
 )
 _M = None
 
@@ -200,4 +201,7 @@ CONTRACTS = [
              bound='one rule on the entity (all 32 predicate combinations), <= 1 on the reverse entity; every ordered pair of entity / attribute / relationship attribute / object checks'),
     Contract('AccessRule.exclude', 'pony.orm.core:AccessRule.exclude', [dict()], _ex_case,
              [('excludes_entity_with_subclasses_and_attribute_refuses_pk', lambda cfg, i, path: path.outcome == 'ret' and path.value == (True, True))], level='bounded', bound='one rule'),
+    Contract('to_json.filter', ['pony.orm.core:Database.to_json', 'pony.orm.core:can_view', 'pony.orm.core:has_perm', 'pony.orm.core:perm', 'pony.orm.core:get_user_groups', 'pony.orm.core:get_user_roles',
+                                'pony.orm.core:get_object_labels'], TJ.configs, TJ.case,
+             [('refused_iff_a_reachable_object_may_not_be_viewed_else_exactly_the_closure', TJ.spec)], level='bounded', bound=TJ.BOUND),
 ]
